@@ -122,6 +122,9 @@ pub struct Beh {
     #[serde(default = "neg1")]
     pub num_vars: i64,
     pub supported: i64,
+    /// supported degree of a second trim whose verifier key is used (-1 = the verifier key of the first trim)
+    #[serde(default = "neg1")]
+    pub vsupported: i64,
     #[serde(default)]
     pub hiding: i64,
     /// presented list of enforced bounds; ignored when `nobounds`
